@@ -299,6 +299,10 @@ func runC01(c *mon.Ctx) {
 			ops = exactPMTScenario(r)
 			c.Count("pmt_filling_its_packet_exactly")
 		}
+		if i%9 == 0 {
+			ops = churnScenario(r)
+			c.Count("stream_churn_histories")
+		}
 		hr := runHistory(ops, 1+r.IntN(6))
 		checkRoundTrip(c, "readd-auto", i, hr)
 		c.Count("explicit_pid_reassigned_automatically")
@@ -315,6 +319,8 @@ func runC01(c *mon.Ctx) {
 	} else {
 		lens = append(lens, 65526, 65527, 65528, 65529, 65535, 65536, 65540)
 	}
+	// units of a thousand packets and more (a large intra frame of a contribution stream): 1023 / 1024 / 1025 packets, 2 K, 1 MiB
+	lens = append(lens, 188218, 188402, 188586, 377000, 1<<20)
 	for li, l := range lens {
 		if !c.Mine("sweep", int64(li)) {
 			continue
